@@ -527,7 +527,9 @@ func (bh *Header) RemoveReference(r *Reference) error {
 	}
 	bh.refs = append(bh.refs[:r.id], bh.refs[r.id+1:]...)
 	for i := range bh.refs[r.id:] {
-		bh.refs[i+int(r.id)].id--
+		ref := bh.refs[i+int(r.id)]
+		ref.id--
+		bh.seenRefs[ref.name] = ref.id
 	}
 	r.id = -1
 	delete(bh.seenRefs, r.name)
@@ -552,12 +554,14 @@ func (bh *Header) AddReadGroup(rg *ReadGroup) error {
 // RemoveReadGroup removes rg from the Header and makes it
 // available to add to another Header.
 func (bh *Header) RemoveReadGroup(rg *ReadGroup) error {
-	if rg.id < 0 || int(rg.id) >= len(bh.refs) || bh.rgs[rg.id] != rg {
+	if rg.id < 0 || int(rg.id) >= len(bh.rgs) || bh.rgs[rg.id] != rg {
 		return errInvalidReadGroup
 	}
 	bh.rgs = append(bh.rgs[:rg.id], bh.rgs[rg.id+1:]...)
 	for i := range bh.rgs[rg.id:] {
-		bh.rgs[i+int(rg.id)].id--
+		g := bh.rgs[i+int(rg.id)]
+		g.id--
+		bh.seenGroups[g.name] = g.id
 	}
 	rg.id = -1
 	delete(bh.seenGroups, rg.name)
@@ -587,7 +591,9 @@ func (bh *Header) RemoveProgram(p *Program) error {
 	}
 	bh.progs = append(bh.progs[:p.id], bh.progs[p.id+1:]...)
 	for i := range bh.progs[p.id:] {
-		bh.progs[i+int(p.id)].id--
+		prog := bh.progs[i+int(p.id)]
+		prog.id--
+		bh.seenProgs[prog.uid] = prog.id
 	}
 	p.id = -1
 	delete(bh.seenProgs, p.uid)
